@@ -57,20 +57,60 @@ def trusted_contracts(registry_factory):
     return ['%s (contract assumed, body not verified: %s)' % (q, c.note) for q, c in reg.contracts.items() if not c.verify]
 
 
-def native_ob(oid, function, fn, bound, backend='native runs of the real code against an independent oracle (CPython)'):
-    """a bounded native stand-in as an obligation (labelled bounded; never counted as proved)"""
-    import time
+def _native_child(conn, fn):
     import traceback
-    from ..common import Ob
-    t0 = time.time()
+    try:
+        import resource
+        lim = 6 * 1024 ** 3
+        resource.setrlimit(resource.RLIMIT_AS, (lim, lim))       # a mutated simulator that grows without bound must not take the machine down
+    except Exception:
+        pass
     try:
         n, wit = fn()
-        err = None
-    except Exception as e:
-        n, wit, err = 0, None, '%s: %s\n%s' % (type(e).__name__, e, traceback.format_exc()[-600:])
+        conn.send(('ok', n, wit))
+    except MemoryError:
+        conn.send(('err', 0, 'MemoryError: the real code under test exhausted the 6 GB address-space limit of the harness'))
+    except BaseException as e:
+        conn.send(('err', 0, '%s: %s\n%s' % (type(e).__name__, e, traceback.format_exc()[-600:])))
+    finally:
+        conn.close()
+
+
+def native_ob(oid, function, fn, bound, backend='native runs of the real code against an independent oracle (CPython)', timeout_s=None):
+    """a bounded native stand-in as an obligation (labelled bounded; never counted as proved).  The harness runs in a forked child with a
+    wall-clock limit and an address-space limit: real code that no longer terminates (or eats memory) under a change yields `undecided`
+    with that reason - which the baseline rule reports as a regression - instead of hanging the check."""
+    import time
+    import multiprocessing as mp
+    from ..common import Ob
+    t0 = time.time()
+    timeout_s = timeout_s or int(os.environ.get('VERIF_NATIVE_TIMEOUT', '1200' if os.environ.get('VERIF_TIER_RUNNING', 'quick') == 'quick' else '5400'))
+    ctx = mp.get_context('fork')
+    parent, child = ctx.Pipe(duplex=False)
+    p = ctx.Process(target=_native_child, args=(child, fn))
+    p.start()
+    child.close()
+    n, wit, err = 0, None, None
+    if parent.poll(timeout_s):
+        try:
+            kind, n, payload = parent.recv()
+            if kind == 'ok':
+                wit = payload
+            else:
+                err = payload
+        except EOFError:
+            err = 'the harness process died without an answer (exit code %s)' % p.exitcode
+    else:
+        err = 'the real code did not finish within %d s on the inputs of this stand-in (it takes seconds on the unchanged tree)' % timeout_s
+    if p.is_alive():
+        p.terminate()
+        p.join(5)
+        if p.is_alive():
+            p.kill()
+    p.join(5)
     if err is not None:
         return Ob(oid, function, 'post', 'undecided', backend, round(time.time() - t0, 2), detail=err, site=function, bounded=bound,
-                  engine='E5-bounded', replay_note='the native harness itself failed: ' + err[:200])
+                  engine='E5-bounded', replay_note='the native harness could not decide: ' + err[:200])
     return Ob(oid, function, 'post', 'bounded-refuted' if wit else 'bounded-ok', backend, round(time.time() - t0, 2),
               detail=(str(wit.get('observed')) if wit else ''), site=function, bounded='%s (%d cases)' % (bound, n), witness=wit,
               replayed=True if wit else None, engine='E5-bounded', replay_note='%d cases run' % n)
